@@ -297,11 +297,17 @@ def run(ctx):
     def is_vt(c):
         return c.target in vt_paths
 
+    typed_checks = []
+    mode_path = next((body.impl_self_def for body in prog.prod_bodies() if body.defp in own_fns), None)
+    side_decoders = {b_.defp for b_ in prog.prod_bodies() if b_.root == b_.defp and b_.argc == 1 and b_.local_ty(1) == "u8" and mode_path and last_seg(mode_path) in b_.local_ty(0) and (b_.impl_self_def == mode_path)}
     decs = []
     for b in prog.prod_bodies():
         if "shadowsocks" not in b.defp or b.root != b.defp:
             continue
         names = [c for (_, c, _) in b.calls()]
+        if any(c.target in side_decoders for c in names) and any(c.name == "Buf::get_u8" for c in names) and "decode" in b.defp:
+            decs.append(b)
+            continue
         reads = any(c.name in ("Buf::get_u8", "Buf::get_u64") for c in names)
         if not reads:
             continue
@@ -362,10 +368,17 @@ def run(ctx):
                 which = (nb if "Buf::get_u8" in na else na) & exp
                 ctx.ob("V2", body.defp, "type-expectation-source", loc(t["sp"]), bool(which), f"expected type comes from {sorted(which)}")
         if type_ok_sites == 0:
+            # the same check written over the side enum: the byte is decoded into a side and compared with the side this receiver reads from
+            got = _typed_type_check(ctx, prog, body, acc, mode_path)
+            if got:
+                type_ok_sites += got
+                typed_checks.append(body.defp)
+        if type_ok_sites == 0:
             ctx.ob("V2", body.defp, "type-check", loc(body.sp), False, "no comparison of the header's type byte with the expected type")
     # the own-type / peer-type tables exist and are complementary (B7)
-    ctx.floor("V2", "Mode type-byte tables (own = {client:0, server:1}, peer = 1 - own)", 2, len(own_fns) + len(peer_fns))
-    ok = bool(own_fns) and bool(peer_fns)
+    # where the decoders compare sides (typed check) the `expected byte` table is replaced by the byte->side decoder, judged at the comparison
+    ctx.floor("V2", "Mode type-byte tables (own = {client:0, server:1}, peer = 1 - own)", 2, len(own_fns) + len(peer_fns) + (1 if typed_checks else 0))
+    ok = bool(own_fns) and (bool(peer_fns) or bool(typed_checks))
     ctx.ob("V2", "protocol::shadowsocks::Mode", "to/expect complementary", "octo-squirrel/src/protocol/shadowsocks.rs", ok,
            f"u8 tables of Mode: {tabs}; need one with client=0, server=1 and one with the complement", ordinal=False)
 
@@ -586,6 +599,63 @@ def run(ctx):
             any("sha2" in body.local_ty(i).lower() for i in range(len(body.locals)))
         ok = uses_sha and ("Digest::update" in names or "Update::update" in names)
         ctx.ob("V4", body.defp, "response-keys-from-request", loc(body.sp), ok, "response key/iv derive from SHA-256 of the request key/iv" if ok else "response key/iv no longer derived with SHA-256")
+
+
+def _typed_type_check(ctx, prog, body, acc, mode_path):
+    """V2 over the side enum: `Mode::decode(byte) == expected_side`. The decoder of the byte must be *strict* - every byte value that is not
+    one of the defined types is refused (Err / None), never mapped onto a side: a catch-all arm makes 254 undefined type bytes pass as the
+    side the catch-all names. The comparison's equal edge must dominate every accepting return. Returns the number of sound comparisons."""
+    if mode_path is None:
+        return 0
+    n_ok = 0
+    for (blk, c, t) in body.calls():
+        fb = prog.body(c.target)
+        if fb is None or fb.root != fb.defp or fb.argc != 1 or fb.local_ty(1) != "u8" or last_seg(mode_path) not in fb.local_ty(0) or not t["args"]:
+            continue
+        p = op_place(t["args"][0])
+        if p is None or not any(cc.name == "Buf::get_u8" for (_, cc, _) in body.slice_back([p[0]])[1]):
+            continue
+        # strictness of the byte -> side decoder
+        strict = None
+        for sb in fb.rpo():
+            st = fb.term(sb)
+            sp_ = op_place(st["d"]) if st and st["k"] == "switch" else None
+            if sp_ is None:
+                continue
+            if 1 not in fb.slice_back([sp_[0]])[0]:
+                continue
+            other = st["otherwise"]
+            listed = {v for v, _ in st["arms"]}
+            builds_side = False
+            for x in fb.reach_from(other):
+                for s_ in fb.stmts(x):
+                    if s_["k"] == "assign" and s_["rv"]["k"] == "agg" and s_["rv"].get("ak") == "adt" and s_["rv"].get("def") == mode_path and not any(fb.can_reach(a_, x) for _, a_ in st["arms"] if a_ != other):
+                        builds_side = True
+            strict = not builds_side
+            break
+        ctx.ob("V2", body.defp, "type-byte-decoding-is-strict", loc(t["sp"]), bool(strict),
+               f"`{last_seg(fb.defp)}` maps only the defined type bytes onto a side and refuses every other value" if strict else
+               f"`{last_seg(fb.defp)}` has a catch-all arm that maps every type byte it does not list onto a side: on the receiver that expects that side, headers "
+               "whose type byte is any of the undefined values are accepted as well-typed (the comparison that follows is between sides, not bytes)")
+        # the comparison of the decoded side with the expected side gates every accept
+        fwd, fcalls, _ = body.slice_fwd([t["dest"][0]])
+        for (cb_, cc, ct, _i) in fcalls:
+            if cc.name in ("PartialEq::eq", "PartialEq::ne"):
+                for g in gates_of_value(body, ct["dest"][0]):
+                    if g.kind != "bool":
+                        continue
+                    eq_t = g.bool_target(cc.name == "PartialEq::eq")
+                    okd = bool(acc) and all(edge_dom_(prog, body, g.block, eq_t, ab) for ab in acc)
+                    ctx.ob("V2", body.defp, "accept-behind-type-check", loc(ct["sp"]), okd,
+                           "accepting return is " + ("" if okd else "NOT ") + "dominated by the side-equal edge")
+                    if okd and strict:
+                        n_ok += 1
+    return n_ok
+
+
+def edge_dom_(prog, body, src, dst, site):
+    from .common import edge_dom
+    return edge_dom(prog, body, src, dst, site) if getattr(body, "is_flat", False) else body.edge_dominates(src, dst, site)
 
 
 def mode_table(body):
